@@ -191,6 +191,26 @@ claim('C13', 'other',
       'segments including ties and zero distances; closest/farthest_point_in_path pick slots 0/1. Not decided: completeness of the root '
       'finder (C19).', TRUST, 'DESIGN.md section 3 C13')
 
+claim('C14', 'other',
+      'abstract interpretation with numpy.poly1d modelled as formal polynomials (Green form identity on a symbolic closed path), '
+      'hooked nested helpers (seg2lines, area_without_arcs), parity table, sign-label table for is_contained_by',
+      'Thin by nature. Decides: area() of a symbolic closed Line+Quadratic+Cubic path equals the sum of the integrals of x dy as a polynomial '
+      'identity in all control points (any valid Green form passes, the boundary terms telescope; the sign is therefore decided too); Arc '
+      'segments are integrated as the chord polyline produced by seg2lines, whose chords run through point(k/n), k=0..n; '
+      'path_encloses_pt asserts closedness and returns the parity of the crossings of Path(Line(pt,opt)); is_contained_by returns False on '
+      'any crossing or when the start lies outside the closed bbox and otherwise delegates with a probe end strictly outside the bbox. '
+      'Not decided: numeric exactness, the crossing counts themselves (C12), chord error for arcs.', TRUST, 'DESIGN.md section 3 C14')
+
+claim('C15', 'other',
+      'abstract interpretation on stub segments (derivative/poly as symbols), normal-form identities for tangent and curvature formulas, '
+      'information-flow (parity) test of the singular fallback by evaluating it on d and -d',
+      'Decides: normal == -1j*unit_tangent in all five classes (same parameter); regular-point tangents are derivative(t)/|derivative(t)| of '
+      'the first derivative; the singular fallback is sqrt(rational_limit(d^2, |d|^2, t)) with d = poly().deriv() - and cannot see the sign of '
+      'd (known finding F11); segment_curvature (regular and singular branch) and Path.curvature implement '
+      '|x\'y\'\'-y\'x\'\'|/(x\'^2+y\'^2)^(3/2); Path.derivative rescales by length**n; Line.curvature == 0; Arc.derivative n=1,2. '
+      'Not decided: limits as numeric statements; invariance under transforms follows from C10 plus these formulas and is not re-derived.',
+      TRUST, 'DESIGN.md section 3 C15')
+
 ALL = ['C%02d' % i for i in range(1, 21)]
 for pid in ALL:
     if pid not in CLAIMED and pid not in NOT_APPLICABLE:
